@@ -94,7 +94,7 @@ pub fn generate(family: &str, seed: u64, n: usize) -> Vec<String> {
         }
         "optc" | "optc_hard" | "optc_lj" => {
             while out.len() < n {
-                let st = gen_state_desc(&mut rng, true);
+                let st = gen_state_desc_ext(&mut rng, true, true);
                 if (family == "optc_hard" && !st.starts_with("hard")) || (family == "optc_lj" && !st.starts_with("lj")) {
                     continue;
                 }
@@ -136,7 +136,7 @@ pub fn generate(family: &str, seed: u64, n: usize) -> Vec<String> {
                 let op = if rng.chance(1, 2) { "dump" } else { "roundtrip" };
                 let dense = rng.chance(1, 2);
                 let init = rng.chance(1, 8);
-                let st = gen_state_desc(&mut rng, dense);
+                let st = gen_state_desc_ext(&mut rng, dense, true);
                 if init {
                     // the from_group state itself
                     let toks: Vec<&str> = st.split(' ').collect();
@@ -890,6 +890,12 @@ fn gen_pair_req(rng: &mut Rng) -> String {
 /// `<kind> <shape> <group> <L R A> 1 <x y angle>`; cells sized relative to the shape so that the
 /// shell count stays small; `dense` biases towards near-contact cells.
 pub fn gen_state_desc(rng: &mut Rng, dense: bool) -> String {
+    gen_state_desc_ext(rng, dense, false)
+}
+
+/// `ext`: also states only the library API / a JSON file can describe (group-token modifiers `g+`, `g@Family`);
+/// used by the correspondence families only — the spec oracles of the searches are written for one site
+pub fn gen_state_desc_ext(rng: &mut Rng, dense: bool, ext: bool) -> String {
     let pi = std::f64::consts::PI;
     let lj = rng.chance(1, 3);
     let shape = if lj { gen_lj_shape(rng) } else { gen_hard_shape(rng) };
@@ -911,17 +917,40 @@ pub fn gen_state_desc(rng: &mut Rng, dense: bool) -> String {
     let mono = g == "p1" || g == "p2";
     let angle = if mono { match rng.below(4) { 0 => pi / 2.0, 1 => pi / 6.0, _ => rng.range(pi / 6.0, pi / 2.0) } } else { pi / 2.0 };
     let a = match rng.below(5) { 0 => 0.0, 1 => 2.0 * pi, _ => rng.range(0.0, 2.0 * pi) };
+    // states only the library API / a JSON file can describe: several occupied sites (`g+`), a cell of one
+    // of the two families no built-in group uses (`g@Family`, ratio 1 and the family's angle)
+    let (mut gtok, mut ratio, mut angle, mut length) = (g.to_string(), ratio, angle, length);
+    let mut nsites = 1;
+    match if ext { rng.below(14) } else { 99 } {
+        // (only for the groups every lattice admits: a mirror or glide is not a symmetry of a 60 degree cell)
+        0 if g == "p1" || g == "p2" => {
+            let (fam, ang) = *rng.pick(&[("Hexagonal", pi / 3.0), ("Tetragonal", pi / 2.0)]);
+            gtok = format!("{}@{}", g, fam);
+            if ratio <= 0.1 { length = rng.range(1.2, 3.5) * n.sqrt(); }
+            ratio = 1.0;
+            angle = ang;
+        }
+        1 | 2 => {
+            nsites = 2 + rng.usize(2);
+            gtok = format!("{}+", g);
+            length *= 1.6 * nsites as f64;
+        }
+        _ => {}
+    }
+    let mut sites = vec![format!("{} {} {}", fhex(gen_site_coord(rng)), fhex(gen_site_coord(rng)), fhex(a))];
+    for _ in 1..nsites {
+        sites.push(format!("{} {} {}", fhex(gen_site_coord(rng)), fhex(gen_site_coord(rng)), fhex(rng.range(0.0, 2.0 * pi))));
+    }
     format!(
-        "{} {} {} {} {} {} 1 {} {} {}",
+        "{} {} {} {} {} {} {} {}",
         if lj { "lj" } else { "hard" },
         shape,
-        g,
+        gtok,
         fhex(length),
         fhex(ratio),
         fhex(angle),
-        fhex(gen_site_coord(rng)),
-        fhex(gen_site_coord(rng)),
-        fhex(a)
+        nsites,
+        sites.join(" ")
     )
 }
 
@@ -935,7 +964,7 @@ fn gen_state_req(rng: &mut Rng) -> String {
         _ => "label",
     };
     let dense = rng.chance(1, 2);
-    format!("state {} {}", op, gen_state_desc(rng, dense))
+    format!("state {} {}", op, gen_state_desc_ext(rng, dense, true))
 }
 
 /// small optimiser configurations for runs on real states
